@@ -156,3 +156,128 @@ Example splice_in_header_program :
   | _, _, _ => False
   end.
 Proof. vm_compute. repeat split; reflexivity. Qed.
+
+(* ================================================================== a sufficient condition for `realigned`: ls2 holds a
+   lexeme after which the column is 1 wherever the part started - a newline, or a block comment with a newline in its
+   body.  Every component of the state after a lexeme depends on the same component before it only (the column on the
+   column); after such a lexeme the column does not depend on anything. *)
+From NV Require Import Proofs.MultiLineComment.
+From NV Require Proofs.LexInv.
+
+Definition resets (l : plex2) : bool :=
+  match l with PS (PWs c) => (c =? 10)%N | PBlock b => existsb (N.eqb 10) b | _ => false end.
+Definition has_newline (ls : list plex2) : bool := existsb resets ls.
+
+Lemma has_newline_mid a b : has_newline (a ++ PS (PWs 10) :: b) = true.
+Proof. unfold has_newline. rewrite existsb_app. cbn [existsb resets]. rewrite N.eqb_refl. now rewrite orb_true_r. Qed.
+
+Lemma posm_snd_l : forall b l l' c, snd (posm l c b) = snd (posm l' c b).
+Proof. induction b as [|ch b IH]; intros l l' c; [reflexivity|]. cbn [posm]. destruct (N.eqb ch 10); apply IH. Qed.
+
+Lemma posm_snd_nl : forall b l l' c c', existsb (N.eqb 10) b = true -> snd (posm l c b) = snd (posm l' c' b).
+Proof.
+  induction b as [|ch b IH]; intros l l' c c' H; [discriminate|]. cbn [posm existsb] in *. rewrite (N.eqb_sym 10 ch) in H.
+  destruct (N.eqb ch 10); [apply posm_snd_l|]. cbn [orb] in H. now apply IH.
+Qed.
+
+(* blank, tab, newline: the next state, component by component *)
+Lemma ws_next_components p c : chr_in c [32; 9; 10]%N = true ->
+  let q := ws_next (mkst [] 0 0 (col p) []) c in
+  ws_next p c = mkst [] (off p + 1)%nat (line p + (if (c =? 10)%N then 1 else 0)) (col q) (errs p).
+Proof.
+  intros Hc. cbv zeta. destruct p as [r o l co e]. apply LexInv.chr_in_In in Hc. cbn [In] in Hc.
+  destruct Hc as [<-|Hc]; [cbv - [Z.add Z.sub Z.modulo Z.mul Nat.add Z.of_nat Z.to_nat]; f_equal; lia|].
+  destruct Hc as [<-|Hc]; [cbv - [Z.add Z.sub Z.modulo Z.mul Nat.add Z.of_nat Z.to_nat]; f_equal; lia|].
+  destruct Hc as [<-|Hc]; [cbv - [Z.add Z.sub Z.modulo Z.mul Nat.add Z.of_nat Z.to_nat]; f_equal; lia|]. destruct Hc.
+Qed.
+
+Lemma ws_next_newline_col p : col (ws_next p 10) = 1.
+Proof. destruct p. reflexivity. Qed.
+
+Definition param (p q p' q' : st) : Prop :=
+  rest p' = rest q' /\ errs p' = errs p /\ errs q' = errs q /\
+  (off p' + off q = off q' + off p)%nat /\ line p' - line p = line q' - line q.
+
+Lemma next2_param l nx p q : lex_ok2 l nx = true -> rest p = rest q ->
+  param p q (lex_next2 p l) (lex_next2 q l) /\
+  (col p = col q -> col (lex_next2 p l) = col (lex_next2 q l)) /\
+  (resets l = true -> col (lex_next2 p l) = col (lex_next2 q l)).
+Proof.
+  intros Hok Hr. unfold param.
+  assert (Hsh : forall k, (rest (shift k p) = rest (shift k q) /\ errs (shift k p) = errs p /\ errs (shift k q) = errs q /\
+                          (off (shift k p) + off q = off (shift k q) + off p)%nat /\ line (shift k p) - line p = line (shift k q) - line q) /\
+                         (col p = col q -> col (shift k p) = col (shift k q))).
+  { intros k. unfold shift. cbn [rest off line col errs]. rewrite Hr. repeat split; try lia. }
+  destruct l as [[c|c v|c|c|w]|b|v|v]; cbn [lex_next2 lex_next resets].
+  - cbn [lex_ok2 lex_ok] in Hok. rewrite (ws_next_components p c Hok), (ws_next_components q c Hok). cbn [rest off line col errs].
+    split; [repeat split; lia|]. split; intros E; [now rewrite E|apply N.eqb_eq in E; subst c; reflexivity].
+  - destruct (Hsh (S (List.length v))) as [A B]. split; [exact A|split; [exact B|discriminate]].
+  - destruct (Hsh 1%nat) as [A B]. split; [exact A|split; [exact B|discriminate]].
+  - destruct (Hsh 1%nat) as [A B]. split; [exact A|split; [exact B|discriminate]].
+  - destruct (Hsh (List.length w)) as [A B]. split; [exact A|split; [exact B|discriminate]].
+  - unfold block_next. cbn [rest off line col errs]. rewrite !posm_line.
+    split; [repeat split; try lia; assumption|]. split; intros E; [rewrite E; f_equal; apply posm_snd_l|f_equal; now apply posm_snd_nl].
+  - destruct (Hsh (2 + List.length v)%nat) as [A B]. split; [exact A|split; [exact B|discriminate]].
+  - destruct (Hsh (2 + List.length v)%nat) as [A B]. split; [exact A|split; [exact B|discriminate]].
+Qed.
+
+Lemma nexts2_param : forall ls X p q, lexs_ok2 ls X = true -> rest p = rest q ->
+  param p q (lex_nexts2 p ls) (lex_nexts2 q ls) /\
+  (col p = col q \/ has_newline ls = true -> col (lex_nexts2 p ls) = col (lex_nexts2 q ls)).
+Proof.
+  induction ls as [|l ls IH]; intros X p q Hok Hr; cbn [lex_nexts2 lexs_ok2 has_newline existsb] in *.
+  - split; [unfold param; repeat split; try lia; assumption|intros [E|E]; [exact E|discriminate]].
+  - apply andb_true_iff in Hok as [Hl Hls].
+    destruct (next2_param l _ p q Hl Hr) as ((R1 & E1 & E1' & O1 & L1) & C1 & C1').
+    destruct (IH X _ _ Hls R1) as ((R2 & E2 & E2' & O2 & L2) & C2).
+    split; [unfold param; repeat split; try congruence; lia|].
+    intros [E|E]; apply C2.
+    + left. now apply C1.
+    + apply orb_true_iff in E as [E|E]; [left; now apply C1'|right; exact E].
+Qed.
+
+Lemma errs_nexts2 ls X p : lexs_ok2 ls X = true -> errs (lex_nexts2 p ls) = errs p.
+Proof. intros H. destruct (nexts2_param ls X p p H eq_refl) as ((_ & E & _) & _). exact E. Qed.
+
+(* after a part that holds a newline the state realigns: one line lower, n raw characters further, same column *)
+Theorem realigned_line : forall n pB ls2 X, lexs_ok2 ls2 X = true -> has_newline ls2 = true -> errs pB = [] ->
+  realigned n pB ls2.
+Proof.
+  intros n pB ls2 X Hok Hnl He. unfold realigned.
+  destruct (nexts2_param ls2 X (after_splice n pB) pB Hok eq_refl) as ((R & E & E' & O & L) & C).
+  specialize (C (or_intror Hnl)). cbn [after_splice off line errs] in *. unfold after_splice in *. cbn [off line errs] in *.
+  destruct (lex_nexts2 {| rest := rest pB; off := off pB + n; line := line pB + 1; col := 1; errs := errs pB |} ls2) as [r1 o1 l1 c1 e1].
+  destruct (lex_nexts2 pB ls2) as [r2 o2 l2 c2 e2]. unfold shl. cbn [rest off line col errs] in *.
+  subst. rewrite He. cbn [map]. f_equal; lia.
+Qed.
+
+Section SpliceLine.
+  Variable uw ud : N -> bool.
+  Local Notation splice1 := Respell.splice1.
+  Local Notation splice2 := Respell.splice2.
+
+  (* the theorem without the realignment hypothesis: the part after the splice holds a newline lexeme *)
+  Theorem splice_between_lexemes_line : forall sp ls1 ls2 X itemsB xfB,
+    sp = splice1 \/ sp = splice2 ->
+    lexs_ok2 ls1 (sp ++ raws2 ls2 ++ X) = true -> lexs_ok2 ls1 (raws2 ls2 ++ X) = true -> lexs_ok2 ls2 X = true ->
+    has_newline ls2 = true ->
+    let n := List.length sp in
+    let pB := lex_nexts2 pos0 ls1 in
+    let pA := after_splice n pB in
+    lex uw ud (raws2 ls1 ++ raws2 ls2 ++ X) = Ok (itemsB, xfB) ->
+    exists later itemsA,
+      itemsB = lex_items2 pos0 ls1 ++ lex_items2 pB ls2 ++ later /\
+      itemsA = lex_items2 pos0 ls1 ++ ISkip (off pB) (off pB + n) :: lex_items2 pA ls2 ++ map (sh_item 1 n) later /\
+      lex uw ud (raws2 ls1 ++ sp ++ raws2 ls2 ++ X) = Ok (itemsA, shl 1 n xfB) /\
+      map kv (tokens_of itemsA) = map kv (tokens_of itemsB).
+  Proof.
+    intros sp ls1 ls2 X itemsB xfB Hsp H1 H1' H2 Hnl. cbv zeta. intros Hlex.
+    apply (splice_between_lexemes uw ud sp ls1 ls2 X itemsB xfB Hsp H1 H1' H2); [|exact Hlex].
+    apply (realigned_line _ _ ls2 X H2 Hnl). exact (errs_nexts2 ls1 _ pos0 H1').
+  Qed.
+End SpliceLine.
+
+Example splice_line_example :
+  has_newline sp_ls2 = true /\ has_newline [PS (PWs 32); PBlock (s " a" ++ [10%N] ++ s " b ")] = true /\
+  has_newline [PS (PWs 32); PLine (s " x")] = false.
+Proof. vm_compute. repeat split; reflexivity. Qed.
